@@ -12,7 +12,7 @@ import someip.config as cfg_
 import someip.header as hdr
 import someip.sd as sd
 
-from .. import core, e1, refcodec
+from .. import canon, core, e1, refcodec
 from ..world import MCAST, Choice, RandomSeam, make_sd, timings
 
 C = 2.0 ** -7
@@ -101,6 +101,11 @@ class Sys(e1.TimedSys):
 
     def roots(self):
         return [self.prot, self.model] + self.insts
+
+    def key(self):
+        c = canon.Canon(self.loop)
+        c.abstract_incoming = True  # the peer's FindService always carries the next session id
+        return canon.key_of((c.snapshot(self.roots()), self.key_extra()))
 
     def actions(self):
         acts = []
@@ -236,7 +241,7 @@ def configs(ctx):
                                               deviations=1, fine=1), ctx.pick(4, 6)))
     out.append(("timeout-c-bursts", dict(sids=s, advs=(None, "half", "next"), timeout=C, bursts=(16, 17, 40),
                                          dests=("M", "P1"), deviations=0, fine=0), ctx.pick(3, 4)))
-    out.append(("timeout-c-lifecycle", dict(sids=s, advs=advs, timeout=C, bursts=(17,), dests=("M", "P1"), lifecycle=True,
+    out.append(("timeout-c-lifecycle", dict(sids=s, advs=advs, timeout=C, bursts=(), dests=("M", "P1"), lifecycle=True,
                                             deviations=1, fine=1), ctx.pick(4, 5)))
     out.append(("timeout-0", dict(sids=s, advs=(None,), timeout=0, bursts=(17,), dests=("M", "P1", "P2"), lifecycle=True,
                                   deviations=1, fine=0), CLOSURE))
